@@ -386,6 +386,9 @@ def run(ctx):
     impl, faults = core.run_lines_parallel(exe, lines, jobs=12)
     for i, kind, err in faults:
         ctx.fail("fault:" + kind, "sanitizer fault rendering a well-formed template: " + lines[i][:300], {"line": lines[i], "stderr": err})
+    # the same renders in SSE2 and AVX2 builds ("the result is the same for every ... SIMD build")
+    step = 5 if not ctx.thorough else 2
+    core.simd_builds(ctx, "template_harness.cpp", lines[::step], impl[::step], "template render")
     n_tags = sum(1 for l in keep if any(t[0] in "vrmsqil" for t in l.split(" ")[3].split(",")))
     ctx.count("documented-expansion", len(lines), n_tags)
     mism = [i for i in range(len(lines)) if impl[i] != expected[i] and not impl[i].startswith("FAULT")]
@@ -406,5 +409,5 @@ def run(ctx):
 
 
 FINISH = dict(level="proof",
-              rule="generated template trees (text, var, raw, math, svar, inline if, if chains, loops nested <= 3; block tags nested 7..13 deep with loops at the 8/9 boundary; super-variable phrases with wide units whose low byte is an ASCII digit) x generated value trees, widths 1/2/4/wchar_t; printed by the Lean printer, rendered by the real code on exact-size buffers under ASan/UBSan, compared with the Lean reference expansion; round c: non-Latin-1 units that are a special character under a mask on every escaped path (widths 2/4/W), every 9th line again through a copy of the parsed tags, <loop group=> over objects with differing member orders against the Lean grouping specification; non-trivial = contains at least one tag",
+              rule="every 5th (quick) / 2nd (thorough) render repeated in SSE2 and AVX2 builds and compared with the scalar build; generated template trees (text, var, raw, math, svar, inline if, if chains, loops nested <= 3; block tags nested 7..13 deep with loops at the 8/9 boundary; super-variable phrases with wide units whose low byte is an ASCII digit) x generated value trees, widths 1/2/4/wchar_t; printed by the Lean printer, rendered by the real code on exact-size buffers under ASan/UBSan, compared with the Lean reference expansion; round c: non-Latin-1 units that are a special character under a mask on every escaped path (widths 2/4/W), every 9th line again through a copy of the parsed tags, <loop group=> over objects with differing member orders against the Lean grouping specification; non-trivial = contains at least one tag",
               checker_cmd="cd lean && lake build Qentem.Props.C01 Qentem.Props.C04 Qentem.Props.C03 && lake env lean <#print axioms>")
